@@ -801,8 +801,15 @@ fn env_entry() -> impl Strategy<Value = BStr> {
     })
 }
 
+/// The plausible errnos of the step, and now and then ANY errno - the statement promises "that step's
+/// errno" whatever it is, and some codes have a meaning of their own elsewhere in the library (ETIMEDOUT,
+/// EINTR, EAGAIN, EINPROGRESS)
 fn errno_strategy(list: &'static [i32]) -> impl Strategy<Value = i32> {
-    prop::sample::select(list.to_vec())
+    prop_oneof![
+        6 => prop::sample::select(list.to_vec()),
+        2 => prop::sample::select(vec![libc::ETIMEDOUT, libc::EINTR, libc::EAGAIN, libc::EINPROGRESS, libc::EALREADY, libc::EBUSY, libc::EIO]),
+        1 => 1i32..=133,
+    ]
 }
 
 fn fault_strategy() -> impl Strategy<Value = Fault> {
@@ -812,7 +819,8 @@ fn fault_strategy() -> impl Strategy<Value = Fault> {
         1 => (0u8..3, errno_strategy(&[libc::EMFILE, libc::ENFILE, libc::ENOMEM, libc::EACCES])).prop_map(|(k, e)| Fault::OpenNull(k, e)),
         2 => errno_strategy(&[libc::EAGAIN, libc::ENOMEM]).prop_map(Fault::Fork),
         1 => (1u8..4).prop_map(Fault::ReadEintr),
-        2 => (0u8..3, errno_strategy(&[libc::EMFILE, libc::EINTR, libc::EBADF])).prop_map(|(k, e)| Fault::Dup(k, e)),
+        // (EBUSY is the one errno dup2 is documented to retry on: a single injected EBUSY is absorbed, not reported)
+        2 => (0u8..3, errno_strategy(&[libc::EMFILE, libc::EINTR, libc::EBADF])).prop_map(|(k, e)| Fault::Dup(k, if e == libc::EBUSY { libc::EIO } else { e })),
         2 => errno_strategy(&[libc::EACCES, libc::ENOENT, libc::ENOTDIR, libc::EIO]).prop_map(Fault::Chdir),
         1 => errno_strategy(&[libc::EPERM, libc::EAGAIN]).prop_map(Fault::Setuid),
         1 => errno_strategy(&[libc::EPERM]).prop_map(Fault::Setgid),
